@@ -29,7 +29,16 @@ func init() {
 		Gen: func(t *rapid.T, ctx *Ctx) interface{} {
 			return &EvCase{Events: gen.Document(t, c01Opts(ctx))}
 		},
-		Check: func(ci interface{}, ctx *Ctx) error {
+		Fixed: func(ctx *Ctx, report func(c interface{}, err error)) {
+			sweepEventCases(ctx, report, c01Check, "custom-text-type-code")
+		}, // CBE has no custom text
+		Check: c01Check,
+	})
+}
+
+func c01Check(ci interface{}, ctx *Ctx) error {
+	{
+		{
 			c := ci.(*EvCase)
 			cfg := newCfg()
 			if idx, err := rulesAccept(c.Events, cfg); idx >= 0 {
@@ -56,6 +65,6 @@ func init() {
 				return fmt.Errorf("CBE round trip changed the data: %s\ndoc=%s", d, hexdump(doc))
 			}
 			return nil
-		},
-	})
+		}
+	}
 }
